@@ -1,13 +1,23 @@
 #!/usr/bin/env python3
-"""Summarise a VERIF_DUMP file: groups by (class, tags) with one example."""
+"""Summarise a VERIF_DUMP file: unlisted failures grouped by (class, tags).
+usage: fails.py dump.jsonl [--full N] [--known]"""
 import json, sys, collections
+args = sys.argv[1:]
+full = int(args[args.index('--full') + 1]) if '--full' in args else 0
+known = '--known' in args
 g = collections.OrderedDict()
-for l in open(sys.argv[1]):
+for l in open(args[0]):
     d = json.loads(l)
+    if ('known' in d) != known:
+        continue
     k = (d['class'], ' '.join(d.get('tags') or []))
     g.setdefault(k, []).append(d)
-full = len(sys.argv) > 2
+n = 0
 for (c, t), ds in sorted(g.items(), key=lambda kv: (kv[0][0], len(kv[1][0]['case']))):
-    print(f"{len(ds):5d} {c} [{t}]")
-    if full:
-        print("      " + ds[0]['detail'][:400].replace('\n', '\n      '))
+    n += 1
+    if n > 60:
+        print('...', len(g) - 60, 'more groups'); break
+    print(f"{len(ds):5d} {c[:110]} [{t}]" + (f" known={ds[0]['known']}" if known else ''))
+    if n <= full:
+        print("      case: " + ds[0]['case'][:900].replace('\n', '\n      '))
+        print("      detail: " + ds[0]['detail'][:500].replace('\n', '\n      '))
